@@ -27,11 +27,18 @@ EXPLANATION = ("The real simulate() is symbolically executed on a real runner ob
                "configuration).  On every path: variations are visited in the documented order, each exactly until rep_max or the stop "
                "rule, a skipped repetition never changes the repetition count, the stored result of each variation is exactly the sum "
                "of its successful repetitions (ring identity over the symbolic values), runned_reps and num_skipped_reps match the "
-               "trace, repeated simulate() starts afresh.  Index arithmetic of get_pack_indexes/get_result_values_list is decided by "
-               "complete enumeration over all grids with 0..3 unpacked parameters of lengths 1..3 and every subset of fixed values.")
+               "trace, repeated simulate() starts afresh.  The repetition loop is additionally proved for a SYMBOLIC rep_max by an inductive "
+               "step from an arbitrary loop-head state (guard fails: exit with stop-rule-said-stop or count >= rep_max; guard holds: one "
+               "merged and counted repetition, or one skipped and uncounted).  simulate(i) dispatches every integer-like index incl. 0 to "
+               "the single-variation driver, which runs exactly the documented i-th combination.  Index arithmetic of get_pack_indexes/get_result_values_list is decided by "
+               "complete enumeration over all grids with 0..3 unpacked parameters of lengths 1..3, every subset of fixed values and float "
+               "value families (ordinary / tiny / adjacent binary64 / huge, arrays and lists); get_pack_indexes is also symbolically "
+               "executed (its eval'd index expression included) on grids of ARBITRARY pairwise distinct real values.")
 ASSUMPTIONS = [
-    "bounded: rep_max in {1,2,3}, at most 2 skips per variation, grids up to 2x2 variations in the symbolic runs (values symbolic); "
-    "larger rep_max / grids / skip patterns in the bounded native check",
+    "whole-run pattern enumeration bounded: rep_max in {1,2,3}, at most 2 skips per variation, grids up to 2x2 variations (values "
+    "symbolic); the repetition loop itself is proved for EVERY rep_max by the inductive step loop/inductive_step_any_rep_max (arbitrary "
+    "loop-head state, symbolic rep_max; the induction over iterations is the standard meta-argument, not machine-checked); larger "
+    "grids / skip patterns in the bounded native check",
     "progress bars, timing, option parsing (SimulationTracking, SimulationConfigurator, pyphysim.progressbar) are executed "
     "natively, declared to have no effect on the state under contract",
     "termination when every repetition is skipped is liveness - outside contracts",
@@ -162,6 +169,154 @@ def ob_repeat():
         it.call(it.getattr(r, "simulate"), [])
         return g1 + _path_goals(r, GRIDS["one"], 2, "run 2: ")
     return verify(body, check_side=False, timeout_ms=20000, max_paths=200000)
+
+
+class _OneIteration(Exception):
+    pass
+
+
+@obligation("loop/inductive_step_any_rep_max", params=[{"first": f} for f in ("guard_and_body", )], timeout=300,
+            desc="the repetition loop of _simulate_for_current_params_common for SYMBOLIC rep_max >= 1 from an ARBITRARY loop-head state "
+                 "(count c >= 0, merged value v, both symbolic - supplied through load_partial_results): if the guard fails the loop "
+                 "exits with (c, v) unchanged and [stop rule said stop or c >= rep_max]; if it holds (then c < rep_max) one iteration "
+                 "either merges exactly one new result and counts it (c+1 <= rep_max, v + x, one more update) or - SkipThisOne - leaves "
+                 "count and value alone and records one skipped repetition.  By induction over the iterations: for every rep_max, "
+                 "count == start + successes, value == start value + sum of successes, never above max(start, rep_max), and at exit "
+                 "the stop rule said stop or count >= rep_max")
+def ob_loop_inductive(first):
+    import ast
+    from .C07 import _make_resuming_runner
+
+    def body(c, it):
+        it.native_prefixes = list(NATIVE)
+        R = c.var("rep_max", "int")
+        c0 = c.var("count", "int")
+        c.assume((R >= 1) & (c0 >= 0))
+        c.inputs.update(rep_max=R, count=c0)
+        saved = []
+        r, v0 = _make_resuming_runner(c, 7, 0, 1, saved)       # concrete values only while the (native) set-up runs
+        r._simulate_common_setup()
+        plist = r.params.get_unpacked_params_list()
+        r.rep_max = R
+        # the arbitrary loop-head state
+        from pyphysim.simulations.results import SimulationResults, Result
+        saver = r._simulation_results_saver
+
+        def load(current_params):
+            s_ = SimulationResults()
+            s_.set_parameters(current_params)
+            rr = Result("v", Result.SUMTYPE)
+            rr._value = v0
+            rr.num_updates = c0
+            s_.add_result(rr)
+            s_.current_rep = c0
+            return s_
+        saver.load_partial_results = load
+        kg = []
+        r._keep_going = lambda p, res, rep: kg.append((rep, bool(c.fresh_var("keep_going", "bool")))) or kg[-1][1]
+        fn = it.ifunc_from_spec("pyphysim.simulations.runner:SimulationRunner._simulate_for_current_params_common")
+        loops = [n for n in ast.walk(fn.node) if isinstance(n, ast.While) and "rep_max" in ast.unparse(n.test)]
+        if len(loops) != 1:
+            return [Goal("the repetition loop (one while loop guarded by rep_max) is found", False)]
+        st = {}
+
+        def hook(interp, s_, frame):
+            st["head"] = (frame.vars["current_rep"], frame.vars["current_sim_results"])
+            if not interp.truth(interp.eval(s_.test, frame)):
+                st["exit"] = True
+                return
+            interp.exec_block(s_.body, frame)
+            st["after"] = (frame.vars["current_rep"], frame.vars["current_sim_results"])
+            raise _OneIteration()
+        it.loop_hooks[id(loops[0])] = hook
+
+        def view(res):
+            d = _fld(res, "_results")
+            v = d["v"][-1]
+            sk = d["num_skipped_reps"][-1]
+            return _fld(v, "_value"), _fld(v, "num_updates"), _fld(sk, "_value")
+        goals = []
+        try:
+            out = it.call(it.getattr(r, "_simulate_for_current_params_serial"), [plist[0]])
+        except _OneIteration:
+            rep1, res1 = st["after"]
+            val, nup, nsk = view(res1)
+            goals.append(Goal("guard held => count < rep_max and the stop rule said go", (lift(c0) < R) & sym.SBool(z3.BoolVal(bool(kg and kg[-1][1])))))
+            goals.append(Goal("the stop rule was asked with the current count", len(kg) == 1 and lift(kg[0][0]) == c0))
+            succ = [t for t in r.trace if not isinstance(t, str)]
+            nskip = sum(1 for t in r.trace if isinstance(t, str))
+            if succ:
+                goals.append(Goal("successful repetition: exactly one execution", len(succ) == 1 and nskip == 0))
+                goals.append(Goal("count' == count + 1 (<= rep_max)", (lift(rep1) == c0 + 1) & (lift(rep1) <= R)))
+                goals.append(Goal("value' == value + new result", lift(val) == v0 + succ[0]))
+                goals.append(Goal("updates' == updates + 1", lift(nup) == c0 + 1))
+                goals.append(Goal("skipped count unchanged", lift(nsk) == 0))
+            else:
+                goals.append(Goal("skipped repetition: one execution, none successful", nskip == 1))
+                goals.append(Goal("count' == count", lift(rep1) == c0))
+                goals.append(Goal("value' == value, updates unchanged", (lift(val) == v0) & (lift(nup) == c0)))
+                goals.append(Goal("one more skipped repetition recorded", lift(nsk) == 1))
+            return goals
+        if not st.get("exit"):
+            return [Goal("the loop was reached", False)]
+        rep, res = out[0], out[1]
+        val, nup, nsk = view(res)
+        stopped = bool(kg) and not kg[-1][1]
+        goals.append(Goal("exit => the stop rule said stop or count >= rep_max", sym.SBool(z3.BoolVal(stopped)) | (lift(c0) >= R)))
+        goals.append(Goal("exit: returned count and view are the loop-head ones", (lift(rep) == c0) & (lift(val) == v0) & (lift(nup) == c0)))
+        goals.append(Goal("exit: nothing executed", len(r.trace) == 0))
+        goals.append(Goal("exit: the final state is handed to save_partial_results", len(saved) == 1 and bool(lift(saved[0][0]) == c0)
+                          if saved and not isinstance(lift(saved[0][0]) == c0, bool) else len(saved) == 1))
+        return goals
+    return verify(body, check_side=False, timeout_ms=20000)
+
+
+@obligation("runner/single_variation_dispatch", timeout=300,
+            desc="simulate(i) with the two serial drivers as abstract callees: None -> all variations; EVERY integer-like index incl. 0, "
+                 "'0', numpy 0 -> the single-variation driver with that index.  The single-variation driver itself with the repetition "
+                 "loop as abstract callee: for 0 <= i < V exactly one call, for the documented i-th combination, runned_reps == its "
+                 "repetition count; out of range -> no call")
+def ob_single_dispatch():
+    def body(c, it):
+        it.native_prefixes = list(NATIVE)
+        goals = []
+        for idx in (None, 0, 1, "0", "1", np.int64(0), np.int32(1), True):
+            r = _make_runner(c, GRIDS["one"], 2, 0)
+            calls = []
+            it.models["pyphysim.simulations.runner:SimulationRunner._simulate_serially_all_param_variation"] = \
+                lambda interp, self: calls.append(("all",))
+            it.models["pyphysim.simulations.runner:SimulationRunner._simulate_serially_single_param_variation"] = \
+                lambda interp, self, i: calls.append(("single", i))
+            it.call(it.getattr(r, "simulate"), [] if idx is None else [idx])
+            want = [("all",)] if idx is None else [("single", idx)]
+            goals.append(Goal("simulate(%r) -> %s" % (idx, want), len(calls) == 1 and calls[0][0] == want[0][0]
+                              and (idx is None or (calls[0][1] is idx or calls[0][1] == idx))))
+        del it.models["pyphysim.simulations.runner:SimulationRunner._simulate_serially_single_param_variation"]
+        del it.models["pyphysim.simulations.runner:SimulationRunner._simulate_serially_all_param_variation"]
+        grid = GRIDS["two"]
+        V = 4
+        for idx in (0, 1, 3, "2", 4, -1):
+            r = _make_runner(c, grid, 2, 0)
+            r._simulation_results_saver._results_base_filename = "ghost_results"      # a results file name is required in this mode
+            seen = []
+
+            def serial(interp, self, current_params, seen=seen):
+                seen.append(current_params)
+                n = c.fresh_var("reps", "int")
+                return (n, None, None)
+            it.models["pyphysim.simulations.runner:SimulationRunner._simulate_for_current_params_serial"] = serial
+            it.models["pyphysim.simulations.runner:SimulationRunner._simulate_common_setup"] = lambda interp, self: None
+            it.call(it.getattr(r, "_simulate_serially_single_param_variation"), [idx])
+            i = int(idx)
+            if 0 <= i < V:
+                names = sorted(grid)
+                digits = np.unravel_index(i, [len(grid[n]) for n in names])
+                ok = len(seen) == 1 and all(seen[0][n] == grid[n][d] for n, d in zip(names, digits)) and seen[0].unpack_index == i
+                goals.append(Goal("single variation %r: exactly the documented combination is run once" % (idx,), ok))
+            else:
+                goals.append(Goal("index %r out of range: nothing is run" % (idx,), len(seen) == 0))
+        return goals
+    return verify(body, check_side=False)
 
 
 @obligation("runner/skip_never_escapes", timeout=600,
